@@ -30,16 +30,6 @@ Rep(s, n) == IF n = 0 THEN <<>> ELSE s \o Rep(s, n - 1)
 \* --------------------------------------------------------------- rule-driven BMC
 \* Get Channel Cipher Suites (App 06h / 54h): request data = channel, payload type, 80h + list index
 \* session-less message: RMCP 4 + wrapper 12 + message header 6 => request data at 22
-ChunkOf(data, i) == SubSeq(data, 16 * i + 1, IF 16 * i + 16 < Len(data) THEN 16 * i + 16 ELSE Len(data))
-IsCipherReq == And(<< Eq(Slice(Req, 5, 6), B(<<0>>)), Eq(Slice(Req, 17, 18), B(<<24>>)), Eq(Slice(Req, 21, 22), B(<<84>>)) >>)
-CipherRule(data, i) ==
-  [rule |-> "chunk", when |-> << IsCipherReq, Eq(Slice(Req, 24, 25), B(<<128 + i>>)) >>,
-   datagrams |-> << Dg(NullWrapper(0, MsgRsp(7, 84, 0, <<14>> \o ChunkOf(data, i))), [kind |-> "chunk", i |-> i]) >>]
-\* any other index: an empty chunk (the list has ended)
-CipherRuleDefault ==
-  [rule |-> "chunk-beyond", when |-> << IsCipherReq >>,
-   datagrams |-> << Dg(NullWrapper(0, MsgRsp(7, 84, 0, <<14>>)), [kind |-> "chunk", i |-> 99]) >>]
-CipherRules(data) == [i \in 1..((Len(data) \div 16) + 1) |-> CipherRule(data, i - 1)] \o << CipherRuleDefault >>
 \* Open Session Request (payload type 10h): answer with status 01h "insufficient resources": the handshake
 \* stops there, the proposal has been observed
 OsrRefuse == [rule |-> "osr", when |-> << Eq(Slice(Req, 5, 6), B(<<16>>)) >>,
